@@ -312,8 +312,12 @@ func (fr *Frame) applyContract(st *State, fc *FuncContract, sig *types.Signature
 	if fc.Trusted {
 		fr.top.trusted[fc.Key] = true
 	}
-	if len(args) != len(fc.Params) {
+	if len(args) < len(fc.Params) {
 		panic(contractErr(fmt.Sprintf("contract %s has %d parameters, call has %d arguments", fc.Key, len(fc.Params), len(args))))
+	}
+	if len(args) > len(fc.Params) {
+		// the function has gained trailing parameters the contract does not know: they stay unconstrained
+		fr.top.note(fmt.Sprintf("call of %s passes %d arguments, its contract names %d: the extra trailing ones are not constrained", shortKey(fc.Key), len(args), len(fc.Params)))
 	}
 	sc := &Scope{fr: fr, st: st, vars: map[string]Val{}, entry: map[string]Val{}, pkg: fr.en.typesPkg(fc.PkgPath)}
 	for i, p := range fc.Params {
